@@ -229,7 +229,8 @@ def run_dial(ctx, cases=None):
     lm, ls, real = [], [], []
     for ci, (outs, to, so) in enumerate(cases):
         net = N.Net(addrs=outs)
-        net.v6 = (ci % 3 == 2)          # every third resolution answers with scoped IPv6 addresses
+        # every third resolution answers with scoped IPv6 addresses, every third with a dual-stack list (families interleaved)
+        net.v6 = True if ci % 3 == 2 else (("mixed64", "mixed46")[ci % 2] if ci % 3 == 1 else False)
         try:
             with N.patched(net, {}):
                 infos = H.socket.getaddrinfo("h", 80, 0, real_socket.SOCK_STREAM, real_socket.SOL_TCP)
@@ -248,6 +249,16 @@ def run_dial(ctx, cases=None):
                             {"op": "open-socket", "outcomes": outs, "resolved": [list(a) for a in net.resolved]},
                             str(net.resolved[ev[1]]), str(ev[2]), size=len(outs))
                 break
+        # every socket is made for the family / type / protocol of ITS OWN resolver entry (dual-stack answers mix families)
+        infos_ = getattr(net, "infos", None)
+        if infos_:
+            for sk in net.socks:
+                k_ = sk.i - net.base
+                if 0 <= k_ < len(infos_) and getattr(sk, "ctor", None) is not None and tuple(sk.ctor) != tuple(infos_[k_][:3]):
+                    ctx.violate("all-addresses-tried", "socket-made-for-another-entry's-address-family",
+                                {"op": "open-socket", "outcomes": outs, "resolver_entries(family,type,proto,sockaddr)": [[int(x[0]), int(x[1]), x[2], list(x[4])] for x in infos_]},
+                                f"socket #{k_}: socket({int(infos_[k_][0])}, {int(infos_[k_][1])}, {infos_[k_][2]})", f"socket{tuple(int(x) for x in sk.ctor)}", size=len(outs))
+                    break
         args = f"{N.enc_timeout(to)} {opts_arg(so)} {N.outcomes_arg(outs)}"
         lm.append("m-open-socket " + args)
         ls.append("s-dial " + args)
